@@ -29,6 +29,23 @@ func VerifH_C01_dense() {
 	vAssert(vSame(objs, m.expected()), "equals-spec")
 }
 
+// VerifH_C01_twoDenseGroups: one block with two dense groups that differ in which optional
+// parts they carry (dense info and its columns, keys_vals): each group's nodes take
+// their own values and the format's defaults, nothing from the other group.
+func VerifH_C01_twoDenseGroups() {
+	m := &mBlock{width: vParam("width", 2)}
+	m.genStrings(vParam("strings", 3))
+	m.genParams(vRange("params", 0, 1))
+	m.genDense(1, vRange("infoMode", -1, 7), 1, vRange("kv", 0, 1) == 1)
+	s := m.secondDense()
+	s.genDense(1, vRange("infoMode2", -1, 7), 1, vRange("kv2", 0, 1) == 1)
+	dd := &dataDecoder{scanner: &Scanner{}}
+	objs, err := c01Decode(dd, m)
+	vReach("decoded")
+	vAssert(err == nil, "no-error")
+	vAssert(vSame(objs, m.expected()), "equals-spec")
+}
+
 // VerifH_C01_ways: one block with a group of ways.
 func VerifH_C01_ways() {
 	m := &mBlock{width: vParam("width", 2)}
